@@ -2359,6 +2359,12 @@ class LinearOperator(object):
                         self.shape, right_tensor.shape
                     )
                 )
+        elif right_tensor.dim() > 1 and self.shape[-1] != right_tensor.size(-2):
+            raise RuntimeError(
+                "LinearOperator (size={}) cannot be multiplied with right-hand-side Tensor (size={}).".format(
+                    self.shape, right_tensor.shape
+                )
+            )
 
         func = Solve
         if left_tensor is None:
